@@ -38,7 +38,18 @@ RULE = ("Single op codes: every implemented op code (and a set of unknown ones) 
         "(Spec/Timelocks.v); constructors from_relative_time / from_relative_blocks in range, at the 16-bit edge, beyond "
         "it and negative; parse on 0..6-byte streams. Small-number helpers (number_to_op_code, op_code_to_number, "
         "encode_minimal_num) for -5..129 and large / random numbers against Model/OpNum.v; the prefix "
-        "<encode_minimal_num(n)> CLTV|CSV DROP 1 for every operand class x context class.")
+        "<encode_minimal_num(n)> CLTV|CSV DROP 1 for every operand class x context class. Alternative entry points "
+        "(predicate eval_entry, fixed + timelock + random programs): the default-constructed Script()/Script(None) edited in "
+        "place (and a second default object observed), the sub-classes ScriptPubKey/RedeemScript/WitnessScript, a + b at "
+        "four split points (operands observed afterwards, the sum edited in place), Script.parse raw/stream/hex, "
+        "RedeemScript.convert, WitnessScript.convert, ScriptPubKey.parse on an independently written wire form (shortest "
+        "push and PUSHDATA1/2/4 forms), Tx.verify_input with push-only script_sig + script_pubkey (other inputs carrying "
+        "scripts of the opposite verdict), and contexts from Tx.parse (legacy / BIP144) / parse_hex / clone, from "
+        "Locktime/Sequence objects, from witness=None and from the constructors' defaults (no locktime / no sequence "
+        "argument). Several inputs of ONE transaction object (predicate eval_inputs): each input with its own script and "
+        "sequence, verified forwards, backwards and through Tx.verify_input without resetting anything, the transaction "
+        "object compared field by field after every step. Data pushes whose bytes are control op codes (63 64 67 68 6a) in "
+        "taken and skipped branches.")
 TRUSTED = ["hashlib (ripemd160, sha1, sha256) — the hash op codes call the same hashlib through the oracle; the "
            "theorems quantify over arbitrary hash functions",
            "Spec/Consensus.v is a hand transcription of Bitcoin Core's EvalScript for the implemented op code set "
@@ -759,6 +770,273 @@ def p_limits(cmds, lt, sq, ver):
             f"resource limits {'accepts' if want else 'rejects'}; limits exceeded by the script: {', '.join(lims) or 'none'}")
 
 
+# ---- alternative entry points, default-constructed objects, several inputs of one transaction
+# Script.evaluate is reached by more than `Script(list).evaluate(constructor-made Tx, i)`: the default-constructed
+# Script edited in place, the sub-classes, `a + b` (the only call in the library: Tx.verify_input evaluates
+# script_sig + script_pubkey), every parser (Script.parse stream / raw / hex, RedeemScript.convert,
+# WitnessScript.convert, ScriptPubKey.parse), and transaction contexts that come from Tx.parse / Tx.clone, from
+# Locktime / Sequence objects or from the constructors' defaults.  The encoders below are written here,
+# independently of the library.
+
+def enc_varint(n):
+    if n < 0xFD:
+        return bytes([n])
+    if n < 0x10000:
+        return b"\xfd" + n.to_bytes(2, "little")
+    return b"\xfe" + n.to_bytes(4, "little")
+
+
+def enc_script(cmds, form=0):
+    """wire form of a command list: an op code is one byte, data gets the shortest push prefix (form 0), or
+    PUSHDATA1 / PUSHDATA2 / PUSHDATA4 wherever the length fits (form 1 / 2 / 4).  None when a command has no wire
+    form (an integer outside 0..255, or 1..78 which the wire format reads as a push prefix)."""
+    out = bytearray()
+    for c in cmds:
+        if isinstance(c, int):
+            if not (c == 0 or 79 <= c <= 255):
+                return None
+            out.append(c)
+            continue
+        n = len(c)
+        if form == 4:
+            out += b"\x4e" + n.to_bytes(4, "little")
+        elif form == 2 or n > 255:
+            out += b"\x4d" + n.to_bytes(2, "little")
+        elif form == 1 or n > 75:
+            out += b"\x4c" + bytes([n])
+        else:
+            out.append(n)
+        out += c
+    return bytes(out)
+
+
+def enc_tx(ver, ins, lt, witnesses=None):
+    """wire form of a transaction with inputs ins = [(prev_tx, prev_index, sequence)], empty script_sigs, one
+    output (0 satoshi, script OP_1); the BIP144 form when witnesses (one list of items per input) is given"""
+    out = ver.to_bytes(4, "little") + (b"\x00\x01" if witnesses is not None else b"") + enc_varint(len(ins))
+    for prev, i, sq in ins:
+        out += prev[::-1] + i.to_bytes(4, "little") + b"\x00" + sq.to_bytes(4, "little")
+    out += b"\x01" + bytes(8) + b"\x01\x51"
+    for w in witnesses or []:
+        out += enc_varint(len(w)) + b"".join(enc_varint(len(x)) + x for x in w)
+    return out + lt.to_bytes(4, "little")
+
+
+def _outcome(fn):
+    """fn() under the special-case detector -> (1 accept / 0 reject or exception / 2 special case entered, exc)"""
+    saved = bscript.encode_varstr
+    bscript.encode_varstr = _raise_special
+    try:
+        return (1 if fn() else 0), None
+    except _Special:
+        return 2, None
+    except ImplTimeout:
+        raise
+    except Exception as e:  # noqa
+        return 0, (None if table_miss(e) else type(e).__name__)
+    finally:
+        bscript.encode_varstr = saved
+
+
+PUSH_ONLY = {0, 79} | set(range(81, 97))
+
+
+def special_pk(pk):
+    """the output scripts for which Tx.verify_input switches the P2SH / witness rules on (written out here)"""
+    if len(pk) == 3 and pk[0] == 169 and isinstance(pk[1], bytes) and len(pk[1]) == 20 and pk[2] == 135:
+        return True
+    return (len(pk) == 2 and isinstance(pk[0], int) and pk[0] in (0, 81) and isinstance(pk[1], bytes)
+            and len(pk[1]) in (20, 32))
+
+
+def _layout(lt, sq, ver):
+    """(sequences of all inputs, index of the evaluated one) — the layout mk_tx chooses"""
+    base = mk_tx(lt, sq, ver, 1)
+    return [int(t.sequence) for t in base.tx_ins], base.verif_idx
+
+
+def p_eval_entry(cmds, lt, sq, ver):
+    """every way of reaching Script.evaluate with the commands cmds in the context (lt, sq, ver), P2SH / witness rules
+    off: the verdict is the consensus verdict (skip OutOfScope), a rejection is `return False`, and the objects the
+    script was built from are left as they were"""
+    from io import BytesIO
+    from buidl.script import ScriptPubKey, RedeemScript, WitnessScript
+    from buidl.timelock import Locktime, Sequence
+    want = spec("spec_eval", cmds, lt, sq, ver, 0, 0)
+    if want == 2:
+        return None
+    cmds = list(cmds)
+
+    def judge(desc, script, tx=None, fn=None):
+        tx = tx or mk_tx(lt, sq, ver)
+        got, exc = _outcome(fn or (lambda: script.evaluate(tx, tx.verif_idx, allow_p2sh=False, allow_witness=False)))
+        if got != want:
+            return (f"{desc}: {'special case entered' if got == 2 else 'accepts' if got else 'rejects'}"
+                    f"{' (raises ' + exc + ')' if exc else ''}, consensus {'accepts' if want else 'rejects'}")
+        if exc:
+            return f"{desc}: raises {exc} on a script that consensus rejects: {RAISES}"
+        return None
+
+    # -- the default-constructed Script, edited in place
+    for mk, nm in ((lambda: Script(), "Script()"), (lambda: Script(None), "Script(None)")):
+        s = mk()
+        if s.commands != [] or s.raw is not None:
+            return f"{nm} is not the empty script: commands {s.commands!r}"
+        s.commands.extend(cmds)
+        m = judge(f"{nm} with the commands added in place", s)
+        if m:
+            return m
+        t = mk()
+        if t.commands != []:
+            return f"a second {nm} carries the commands that were added to the first one"
+        if _outcome(lambda: t.evaluate(mk_tx(lt, sq, ver), 0, allow_p2sh=False, allow_witness=False))[0] != 0:
+            return f"the empty script {nm} is accepted"
+    # -- the sub-classes
+    for cls in (ScriptPubKey, RedeemScript, WitnessScript):
+        m = judge(f"{cls.__name__}(commands)", cls(list(cmds)))
+        if m:
+            return m
+    # -- a + b
+    lead = 0
+    while lead < len(cmds) and (isinstance(cmds[lead], bytes) or cmds[lead] in PUSH_ONLY):
+        lead += 1
+    for k in sorted({0, lead, len(cmds) // 2, len(cmds)}):
+        for ca, cb in ((Script, Script), (RedeemScript, ScriptPubKey)):
+            a, b = ca(list(cmds[:k])), cb(list(cmds[k:]))
+            for rnd in (1, 2):
+                c = a + b
+                m = judge(f"Script(commands[:{k}]) + Script(commands[{k}:]) (sum number {rnd})", c)
+                if m:
+                    return m
+                if _snap(a.commands) != _snap(cmds[:k]) or _snap(b.commands) != _snap(cmds[k:]):
+                    return f"a + b changed an operand: a.commands = {a.commands!r}, b.commands = {b.commands!r}"
+                c.commands.append(0)              # editing the sum must not reach the operands
+                if _snap(a.commands) != _snap(cmds[:k]) or _snap(b.commands) != _snap(cmds[k:]):
+                    return "a + b shares its command list with an operand"
+    # -- the parsers
+    for form in (0, 1, 2, 4):
+        raw = enc_script(cmds, form)
+        if raw is None or (form and not any(isinstance(c, bytes) for c in cmds)):
+            continue
+        vs = enc_varint(len(raw)) + raw
+        for nm, mk in (("Script.parse(raw=)", lambda: Script.parse(raw=raw)),
+                       ("Script.parse(stream)", lambda: Script.parse(BytesIO(vs + b"\x51"))),
+                       ("Script.parse_hex", lambda: Script.parse_hex(raw.hex())),
+                       ("RedeemScript.convert", lambda: RedeemScript.convert(raw)),
+                       ("WitnessScript.convert", lambda: WitnessScript.convert(raw)),
+                       ("ScriptPubKey.parse", lambda: ScriptPubKey.parse(BytesIO(vs)))):
+            if form and nm not in ("Script.parse(raw=)", "RedeemScript.convert"):
+                continue
+            try:
+                s = mk()
+            except ImplTimeout:
+                raise
+            except Exception as e:  # noqa
+                return f"{nm} of {raw.hex()} (push form {form}) raises {type(e).__name__}"
+            m = judge(f"{nm} of {raw.hex()} (push form {form})", s)
+            if m:
+                return m
+    # -- Tx.verify_input: script_sig + script_pubkey, the rules switched by the output being spent
+    for k in sorted({0, lead}):
+        sig, pk = cmds[:k], cmds[k:]
+        if special_pk(pk):
+            continue
+        tx = mk_tx(lt, sq, ver)
+        for j, txin in enumerate(tx.tx_ins):
+            if j == tx.verif_idx:
+                txin.script_sig, txin._script_pubkey = Script(list(sig)), Script(list(pk))
+            else:                                  # the other inputs: the opposite verdict
+                txin.script_sig, txin._script_pubkey = Script([]), Script([0] if want else [81])
+        for rnd in (1, 2):
+            m = judge(f"Tx.verify_input with script_sig = commands[:{k}], script_pubkey = commands[{k}:] (call {rnd})",
+                      None, tx, lambda: tx.verify_input(tx.verif_idx))
+            if m:
+                return m
+            me = tx.tx_ins[tx.verif_idx]
+            if _snap(me.script_sig.commands) != _snap(sig) or _snap(me._script_pubkey.commands) != _snap(pk):
+                return "Tx.verify_input changed the script_sig / script_pubkey of the input"
+    # -- the transaction context from parsers, from Locktime / Sequence objects, from the constructors' defaults
+    seqs, idx = _layout(lt, sq, ver)
+    ins = [(bytes([j + 1]) * 32, j, s) for j, s in enumerate(seqs)]
+    wits = [[b"\x01", b"", bytes(range(33))] if j == idx else [b"\x02"] * j for j in range(len(ins))]
+    ctxs = [("Tx.parse (legacy form)", lambda: Tx.parse(BytesIO(enc_tx(ver, ins, lt)))),
+            ("Tx.parse (segwit form)", lambda: Tx.parse(BytesIO(enc_tx(ver, ins, lt, wits)))),
+            ("Tx.parse_hex", lambda: Tx.parse_hex(enc_tx(ver, ins, lt).hex())),
+            ("Tx.parse(...).clone()", lambda: Tx.parse(BytesIO(enc_tx(ver, ins, lt, wits))).clone()),
+            ("Tx built from Locktime / Sequence objects",
+             lambda: Tx(ver, [TxIn(p, i, None, Sequence(s)) for p, i, s in ins], [], Locktime(lt))),
+            ("Tx with witness = None", lambda: Tx(ver, [TxIn(p, i, sequence=s) for p, i, s in ins], [], lt))]
+    if lt == 0:
+        ctxs.append(("Tx without a locktime argument", lambda: Tx(ver, [TxIn(p, i, sequence=s) for p, i, s in ins], [])))
+    if sq == U32:
+        ctxs.append(("TxIn without a sequence argument",
+                     lambda: Tx(ver, [TxIn(p, i) if i == idx else TxIn(p, i, sequence=s) for p, i, s in ins], [], lt)))
+        if lt == 0:
+            ctxs.append(("TxIn without a sequence argument in a Tx without a locktime argument",
+                         lambda: Tx(ver, [TxIn(p, i) if i == idx else TxIn(p, i, sequence=s) for p, i, s in ins], [])))
+    for nm, mk in ctxs:
+        try:
+            tx = mk()
+        except ImplTimeout:
+            raise
+        except Exception as e:  # noqa
+            return f"{nm} raises {type(e).__name__} for (locktime, sequences, version) = {(lt, seqs, ver)}"
+        if nm == "Tx with witness = None":
+            for t in tx.tx_ins:
+                t.witness = None
+        tx.verif_idx = idx
+        for rnd in (1, 2):
+            m = judge(f"context from {nm} (evaluation {rnd})", Script(list(cmds)), tx)
+            if m:
+                return m
+    # clone() of a constructor-made transaction, then the original again
+    tx = mk_tx(lt, sq, ver, 1)
+    for t in tx.tx_ins:
+        t.witness = Witness()
+    cl = tx.clone()
+    cl.verif_idx = tx.verif_idx
+    return judge("context from Tx.clone()", Script(list(cmds)), cl) or judge("the cloned Tx after its clone was used",
+                                                                             Script(list(cmds)), tx)
+
+
+def p_eval_inputs(items, lt, ver):
+    """ONE transaction object with one input per item (commands, sequence): the inputs are verified one after the
+    other, forwards and backwards, by Script.evaluate and by Tx.verify_input, and nothing is reset in between (the
+    use Tx.verify makes of it).  Every verdict is the consensus verdict for (locktime, the sequence of THAT input,
+    version), and the transaction is left as it was."""
+    ins = [TxIn(bytes([j + 1]) * 32, j, sequence=sq) for j, (cmds, sq) in enumerate(items)]
+    tx = Tx(ver, ins, [], lt)
+    for j, (cmds, sq) in enumerate(items):
+        ins[j].script_sig, ins[j]._script_pubkey = Script([]), Script(list(cmds))
+
+    def snap():
+        return [tx.version, int(tx.locktime), type(tx.locktime).__name__, len(tx.tx_ins)] + \
+               [(t.prev_tx, t.prev_index, int(t.sequence), type(t.sequence).__name__, _snap(t._script_pubkey.commands),
+                 _snap(t.script_sig.commands)) for t in tx.tx_ins]
+    before = snap()
+    order = list(range(len(items)))
+    for k, j in enumerate(order + order[::-1] + order):
+        cmds, sq = items[j]
+        want = spec("spec_eval", cmds, lt, sq, ver, 0, 0)
+        via = "Tx.verify_input" if k >= 2 * len(items) else "Script.evaluate"
+        if via == "Tx.verify_input" and special_pk(cmds):
+            continue
+        s = Script(list(cmds))
+        got, exc = _outcome((lambda: tx.verify_input(j)) if via == "Tx.verify_input" else
+                            (lambda: s.evaluate(tx, j, allow_p2sh=False, allow_witness=False)))
+        if snap() != before:
+            return f"step {k}: {via} of input {j} changed the transaction object"
+        if want == 2:
+            continue
+        if got != want:
+            return (f"step {k}: {via} of input {j} (sequence {sq}, locktime {lt}, version {ver}) gives {got}"
+                    f"{' (raises ' + exc + ')' if exc else ''}, consensus {want}; the same script on a fresh one-input "
+                    f"context: {run_evaluate(cmds, lt, sq, ver, 0, 0)}")
+        if exc:
+            return f"step {k}: {via} of input {j} raises {exc} where consensus rejects: {RAISES}"
+    return None
+
+
 # BIP342: the op codes that make a tapscript succeed unconditionally
 OP_SUCCESS = {80, 98} | set(range(126, 130)) | set(range(131, 135)) | {137, 138, 141, 142} | set(range(149, 154)) \
     | set(range(187, 255))
@@ -800,7 +1078,7 @@ PROPS = {"codec_int": p_codec_int, "codec_bytes": p_codec_bytes, "op": p_op, "ev
          "eval_reuse": p_eval_reuse, "eval_seq": p_eval_seq, "op_seq": p_op_seq, "minimal_push": p_minimal_push,
          "op_code_to_number": p_op_code_to_number, "timelock_api": p_timelock_api, "tables": p_tables,
          "eval_defaults": p_eval_defaults, "timelock_spec": p_timelock_spec, "eval_lim": p_eval_lim,
-         "limits": p_limits}
+         "limits": p_limits, "eval_entry": p_eval_entry, "eval_inputs": p_eval_inputs}
 
 
 def _impl_is_model(fn, args):
@@ -1105,12 +1383,80 @@ def reuse_cases(ctx):
         yield ("prop", "op_seq", [items])
 
 
+def entry_cases(ctx):
+    """alternative entry points / default-constructed objects / several inputs of one transaction / pushes whose
+    bytes are control op codes (classes a, b, d, f, g of the audit)"""
+    r = ctx.rng
+    h20, h32 = bytes(range(20)), bytes(range(32))
+    hx = bytes.fromhex("11f6ad8ec52a2984abaafd7c3b516503785c2072")        # some 20 bytes that are not HASH160("x")
+    # ---- data pushes whose bytes are those of control / failing op codes, in taken and skipped branches
+    ctl = [b"\x63", b"\x64", b"\x67", b"\x68", b"\x6a", b"\x51", b"\x00", b"\x63\x68", b"\x67\x68", b"\x68\x68\x68"]
+    ctlprogs = []
+    for p in ctl:
+        ctlprogs += [[0, 99, p, 104, 81], [81, 99, p, 104], [81, 99, p, 103, 0, 104], [0, 99, 81, 103, p, 104],
+                     [0, 100, 81, 99, p, 104, 104], [81, 99, 0, 99, p, 104, 81, 104], [p, 99, 81, 103, 0, 104],
+                     [81, 100, p, p, 103, p, 104], [0, 99, p, 103, p, 103, p, 104, 116]]
+    for cmds in ctlprogs:
+        ctx.label("program/control-byte-pushes")
+        yield from both_eval(cmds, (0, 0, 2))
+    # ---- programs for the entry points
+    fixed = [
+        [], [81], [0], [b"\x80"], [b""], [b"", b""], [81, 99, 82, 103, 83, 104], [0, 99, 0, 103, 81, 103, 0, 104],
+        [81, 82, 147, 83, 135], [82, 81, 107, 99, 108, 104], [b"abc", 168, 130, b"\x20", 135], [b"x" * 76, 130], [b"y" * 256, 130],
+        [b"z" * 520, 169, 130], [81, 103], [81, 99], [104], [81, 255], [0, 99, 255, 104, 81],
+        # scriptSig pushes + a scriptPubKey that is no P2SH / witness program although the pushes look like one
+        [0, h20, 117, 117, 81], [0, h32, 109, 81], [81, h32, 109, 81], [b"", h20, 109, 81], [b"x", 169, h20, 135, 81],
+        [b"x", 169, hx, 135], [b"x", b"y", 124, 169, h20, 135], [0, h20], [0, h32], [81, h32], [b"x", 169, h20, 135],
+        [b"\x63", b"\x68", 109, 81], [81, b"\x67", 117],
+    ] + ctlprogs[::7]
+    cases = [(c, (0, 0, 2)) for c in fixed]
+    for o in (177, 178):
+        for n in (0, 5, 0x10005, (1 << 22) | 5, 499999999, 500000000, 1 << 31, 2 ** 32 - 1):
+            for c in ((0, 0, 2), (0, U32, 2), (n & U32, 5, 1), (500000000, (1 << 22) | 6, 2 ** 32 - 1), (0, 0x10005, 2),
+                      (2 ** 32 - 1, U32, 0), (0, 1 << 31, 2), (0, 6, 2 ** 32 - 1), (5, (1 << 22) | 6, 2 ** 32 - 1),
+                      (2 ** 32 - 1, 0xFFFFFFFE, 2 ** 31), (500000000, U32, 2)):
+                cases.append(([ref_minimal_push(n), o, 117, 81], c))
+                if n in (5, 500000000):
+                    cases.append(([ref_encode_num(n), 81, 99, o, 103, 0, 104], c))
+    for i in range(ctx.n(260, 5000)):
+        g = ProgGen(r, timelocks=(i % 2 == 0))
+        cmds = g.program(r.randrange(1, 41))
+        if i % 6 == 5:
+            cmds = mutate(r, cmds)
+        c = rctx(r)
+        if i % 9 == 0:
+            c = (0, U32, c[2])                    # the constructors' defaults
+        cases.append((cmds, c))
+    for cmds, c in cases:
+        ctx.label("entry/alternative-entry-points")
+        yield ("prop", "eval_entry", [cmds, c[0], c[1], c[2]])
+    # ---- several inputs of one transaction object, verified one after the other
+    tl = [[ref_minimal_push(n), o, 117, 81] for o in (177, 178) for n in (0, 5, 6, 0x10005, (1 << 22) | 5, 500000000, 1 << 31)]
+    for i in range(ctx.n(160, 3000)):
+        items = []
+        for _ in range(r.randrange(2, 5)):
+            if r.random() < 0.6:
+                cmds = r.choice(tl)
+            else:
+                cmds = ProgGen(r, timelocks=True).program(r.randrange(1, 20))
+            items.append([cmds, r.choice(SEQUENCES)])
+        if i % 3 == 0:
+            items.append([items[0][0], r.choice(SEQUENCES)])      # the same script on another input
+        if i % 4 == 0:
+            items[r.randrange(len(items))][1] = U32
+        ctx.label("entry/inputs-of-one-transaction")
+        yield ("prop", "eval_inputs", [items, r.choice(LOCKTIMES), r.choice([1, 2, 2, 2, 2 ** 32 - 1])])
+
+
 def generate(ctx):
     r = ctx.rng
     thorough = ctx.tier != "quick"
 
     # ------------------------------------------------ repeated use of one object / one process
     yield from reuse_cases(ctx)
+
+    # ------------------------------------------------ alternative entry points, defaults, inputs of one transaction
+    yield from entry_cases(ctx)
 
     # ------------------------------------------------ number codec
     ints = {0, 1, -1, 2, -2, 16, 17, 127, 128, 129, 255, 256, 257}
